@@ -33,6 +33,9 @@ def check(model, tier):
     from ..rules import rangesql
 
     rangesql.r12_7_range_membership(ctx)
+    from ..rules import sqlemit as _sqlemit
+
+    _sqlemit.r_anonymous_binds(ctx, "R12.8")
     from ..rules.foundation import run_foundation
 
     run_foundation(ctx, "12")
